@@ -313,7 +313,7 @@ def units():
                     if k.startswith('BV_'):
                         del us[-1]['defs'][k]
                 us[-1]['defs'].update({'BDOM': '8' if tokv == 2 else '6', 'L0C_MAXN': '5', 'CS_MAX': '7'})
-                us[-1]['bound_text'] = 'receiver: inline with at most 4 elements or large with 1..3; argument: inline with at most 2 or large with 1..2; ranks in [0,6); ascending and descending order, strict or coarse'
+                us[-1]['bound_text'] = 'receiver: inline with at most 4 elements or large with 1..3; argument: inline with at most 2 or large with 1..2; ranks in [0,6); ascending (quick) and descending (thorough) order'
     for sz in ('u8',):
         add('SafeNextCapacity.%s' % sz, 'SafeNextCapacity__%s_u64_b' % sz, ['C08', 'C18'], 1, svb('ElemNR', sz), sz, 'ElemNR')
     add('ExceptionGrowingPolicy.Check', 'Exc__Check__u64_u64', ['C08'], 1, svb('ElemNR', 'u8'), 'u8', 'ElemNR')
